@@ -31,6 +31,7 @@ BODIES = {
     "preprocess_plain": "while true do frame:preprocess('plain') end",
     "preprocess_invoke": "while true do frame:preprocess('{{#invoke:c07aux|ok}}') end",
     "after_nested_invoke": "frame:preprocess('{{#invoke:c07aux|ok}}') while true do end",
+    "nested_inner_loop": "frame:preprocess('{{#invoke:c07aux|slow}}') return 'after'",
     "tail_recursion": "local function f() return f() end f()",
     "mutual_recursion": "local a, b; a = function() return b() end; b = function() return a() end; a()",
     "clear_hook": "if _lua_clear_timeout_hook then _lua_clear_timeout_hook() end while true do end",
@@ -58,9 +59,11 @@ local e = {}
 function e.ok(frame) return "ok" .. (frame.args[1] or "") end
 function e.raise(frame) error("boom") end
 function e.slow(frame) while true do end end
+function e.guarded(frame) local ok = pcall(error, "boom") return ok and "bad" or "caught" end
 return e
 """
-FOLLOW = {"benign": "{{#invoke:c07aux|ok|z}}", "raising": "{{#invoke:c07aux|raise}}", "timing_out": "{{#invoke:c07aux|slow}}"}
+FOLLOW = {"benign": "{{#invoke:c07aux|ok|z}}", "raising": "{{#invoke:c07aux|raise}}", "timing_out": "{{#invoke:c07aux|slow}}",
+          "guarded": "{{#invoke:c07aux|guarded}}"}
 
 
 def module_text(body, wrapper, position):
@@ -75,7 +78,7 @@ def fresh_results():
     ctx = new_ctx(lua=True)
     ctx.add_page("Module:c07aux", 828, AUX, model="Scribunto")
     out = {}
-    for k in ("benign", "raising"):
+    for k in ("benign", "raising", "guarded"):
         ctx.start_page("Tt")
         out[k] = ctx.expand(FOLLOW[k], timeout=LIMIT)
     close_ctx(ctx)
@@ -142,6 +145,9 @@ def main(run):
             chunks.append((b, w, "function", ("benign",)))
         for b, w in QUICK[:6]:
             chunks.append((b, w, "toplevel", ("benign", "raising")))
+        for b in ("nested_inner_loop", "preprocess_invoke", "after_nested_invoke"):
+            chunks.append((b, "none", "function", ("guarded", "timing_out", "benign")))
+            chunks.append((b, "pcall", "function", ("timing_out", "guarded")))
     else:
         hist = [()] + [(a,) for a in FOLLOW] + list(itertools.product(FOLLOW, repeat=2))
         k = 0
